@@ -12,6 +12,7 @@ import (
 	"encoding/base64"
 	"fmt"
 	"io"
+	"net"
 	"net/http"
 	"reflect"
 	"sort"
@@ -34,6 +35,7 @@ type caseT struct {
 	Pass      string   `json:"pass,omitempty"` // events | delivered
 	Cuts      []int    `json:"cuts,omitempty"` // the segmentation that differed
 	Family    string   `json:"family,omitempty"`
+	ReadLimit int      `json:"read_limit,omitempty"` // Config.ReadLimit of the engine (0: 1 GiB)
 }
 
 // ---------------------------------------------------------------- recording processor
@@ -44,9 +46,14 @@ type recorder struct {
 	inBody   bool
 	events   int
 	complete int
+	// upgrade: a message with an Upgrade header hands the connection over at its end
+	upgradeNext bool
+	upgraded    []byte
 }
 
 func (r *recorder) reset() {
+	r.upgradeNext = false
+	r.upgraded = r.upgraded[:0]
 	r.log = r.log[:0]
 	r.body = r.body[:0]
 	r.inBody = false
@@ -75,11 +82,16 @@ func (r *recorder) ev(tag string, parts ...string) {
 	r.log = append(r.log, '\n')
 }
 
-func (r *recorder) OnMethod(p *nbhttp.Parser, m string)           { r.ev("M", m) }
-func (r *recorder) OnURL(p *nbhttp.Parser, u string) error        { r.ev("U", u); return nil }
-func (r *recorder) OnProto(p *nbhttp.Parser, s string) error      { r.ev("P", s); return nil }
-func (r *recorder) OnStatus(p *nbhttp.Parser, c int, s string)    { r.ev("S", strconv.Itoa(c), s) }
-func (r *recorder) OnHeader(p *nbhttp.Parser, k, v string)        { r.ev("H", k, v) }
+func (r *recorder) OnMethod(p *nbhttp.Parser, m string)        { r.ev("M", m) }
+func (r *recorder) OnURL(p *nbhttp.Parser, u string) error     { r.ev("U", u); return nil }
+func (r *recorder) OnProto(p *nbhttp.Parser, s string) error   { r.ev("P", s); return nil }
+func (r *recorder) OnStatus(p *nbhttp.Parser, c int, s string) { r.ev("S", strconv.Itoa(c), s) }
+func (r *recorder) OnHeader(p *nbhttp.Parser, k, v string) {
+	r.ev("H", k, v)
+	if strings.EqualFold(k, "Upgrade") {
+		r.upgradeNext = true
+	}
+}
 func (r *recorder) OnContentLength(p *nbhttp.Parser, n int)       { r.ev("L", strconv.Itoa(n)) }
 func (r *recorder) OnTrailerHeader(p *nbhttp.Parser, k, v string) { r.ev("T", k, v) }
 func (r *recorder) OnBody(p *nbhttp.Parser, d []byte) error {
@@ -91,7 +103,25 @@ func (r *recorder) OnBody(p *nbhttp.Parser, d []byte) error {
 func (r *recorder) OnComplete(p *nbhttp.Parser) {
 	r.ev("C")
 	r.complete++
+	if r.upgradeNext {
+		// the message asked for another protocol and the application takes the connection over
+		// synchronously: every byte behind the message belongs to the new protocol, whatever
+		// read it arrived in
+		r.upgradeNext = false
+		p.ParserCloser = &recCloser{r: r}
+	}
 }
+
+// recCloser is the protocol a connection was upgraded to: it records the bytes handed over.
+type recCloser struct{ r *recorder }
+
+func (c *recCloser) UnderlayerConn() net.Conn { return nil }
+func (c *recCloser) Parse(data []byte) error {
+	// (segmentation decides how the bytes are split over calls: one joined line at the end)
+	c.r.upgraded = append(c.r.upgraded, data...)
+	return nil
+}
+func (c *recCloser) CloseAndClean(err error)          {}
 func (r *recorder) Close(p *nbhttp.Parser, err error) {}
 func (r *recorder) Clean(p *nbhttp.Parser)            {}
 
@@ -176,6 +206,7 @@ func clientHandler(res *http.Response, err error) {
 // ---------------------------------------------------------------- running the parser
 
 var engine *nbhttp.Engine
+var curReadLimit int // read limit of the stream being checked (0: the default engine)
 
 var stateNames = []string{"Close", "MethodBefore", "Method", "PathBefore", "Path", "ProtoBefore", "Proto", "ProtoLF",
 	"ClientProtoBefore", "ClientProto", "StatusCodeBefore", "StatusCode", "StatusBefore", "Status", "StatusLF",
@@ -208,6 +239,21 @@ type outcome struct {
 
 // parse feeds the segments to a fresh parser and stops at the first error,
 // which is what the engine does (it closes the connection).
+// limited returns an engine like the default one with the given read limit.
+var limitedEngines = map[int]*nbhttp.Engine{}
+
+func limited(n int) *nbhttp.Engine {
+	if e := limitedEngines[n]; e != nil {
+		return e
+	}
+	if len(limitedEngines) > 64 {
+		limitedEngines = map[int]*nbhttp.Engine{}
+	}
+	e := nbhttp.NewEngine(nbhttp.Config{Handler: http.HandlerFunc(serverHandler), ReadLimit: n})
+	limitedEngines[n] = e
+	return e
+}
+
 func parse(rec *recorder, pass string, client bool, segs [][]byte, wantState bool) outcome {
 	rec.reset()
 	conn := &httpgen.NopConn{}
@@ -222,7 +268,11 @@ func parse(rec *recorder, pass string, client bool, segs [][]byte, wantState boo
 			proc = nbhttp.NewServerProcessor()
 		}
 	}
-	p := nbhttp.NewParser(conn, engine, proc, client, nil)
+	eng := engine
+	if curReadLimit > 0 {
+		eng = limited(curReadLimit)
+	}
+	p := nbhttp.NewParser(conn, eng, proc, client, nil)
 	var o outcome
 	for i, s := range segs {
 		// the parser may keep a reference only until it returns; hand it a
@@ -242,6 +292,11 @@ func parse(rec *recorder, pass string, client bool, segs [][]byte, wantState boo
 		}
 	}
 	rec.flushBody()
+	if len(rec.upgraded) > 0 {
+		rec.log = append(rec.log, "UPGRADED "...)
+		rec.log = strconv.AppendQuote(rec.log, string(rec.upgraded))
+		rec.log = append(rec.log, '\n')
+	}
 	o.log = append([]byte(nil), rec.log...)
 	o.events = rec.events
 	o.complete = rec.complete
@@ -371,6 +426,11 @@ func normErr(s string) string {
 
 func runStream(r *h.Run, c caseT, stream []byte, rng func(string) []int, pairs bool, nRandom int, wantMsgs int) {
 	ck := &checker{r: r, c: c, stream: stream, client: c.Kind == "response", rec: &recorder{}, base: map[string]outcome{}, failed: map[string]bool{}}
+	curReadLimit = c.ReadLimit
+	defer func() { curReadLimit = 0 }()
+	if c.ReadLimit > 0 {
+		r.Count("streams_with_a_read_limit_equal_to_their_length", 1)
+	}
 	r.Eval(1)
 	L := len(stream)
 	for _, pass := range []string{"events", "delivered"} {
@@ -494,6 +554,22 @@ func main() {
 			for _, f := range m.Feat {
 				r.Seen("grammar_feature", f)
 			}
+		}
+		if kind == "request" && len(c.Mutations) == 0 && i%5 == 2 {
+			// the last request switches protocols and the client does not wait for the answer:
+			// the first bytes of the new protocol follow in the same stream
+			up := "GET /chat HTTP/1.1\r\nHost: verif\r\nUpgrade: websocket\r\nConnection: Upgrade\r\nSec-WebSocket-Version: 13\r\n\r\n"
+			tail := make([]byte, 1+rng.Intn(40))
+			rng.Read(tail)
+			stream = append(append(stream, up...), tail...)
+			c.Mutations = append(c.Mutations, "upgrade-request-with-bytes-behind-it")
+			r.Count("streams_ending_in_an_upgrade", 1)
+		}
+		if i%3 == 1 {
+			// a read limit the stream just meets: what is retained between reads plus the next read
+			// never exceeds the stream itself, so no segmentation may be refused for its length
+			// when the one-piece parse is not (and the limit is in force in every state)
+			c.ReadLimit = len(stream)
 		}
 		c.Stream = base64.StdEncoding.EncodeToString(stream)
 		c.Literal = h.Hex(stream, 600)
